@@ -11,7 +11,7 @@ exactly as in the `avalanches` request of `Driver/C13b.lean` (whose parser is re
   p<col>.<row>:<samples> …` → `ok none` | `ok <x> <y> <z>` (bit patterns, `nan` for any NaN) |
   `panic <site>`;
 * `vertexx <pad response> | w<idx>:<deconvolved input> … | p<col>.<row>:<samples> …` → the same
-  answer for the chain downstream of the wire deconvolution (the w-tokens carry what
+  answer, with `exact` in place of `ok`, for the chain downstream of the wire deconvolution (the w-tokens carry what
   `wire_range_deconvolution` returned, as in `avalanchesx` of `Driver/C13b.lean`): bit for bit;
 * an `ok` answer of `vertex`/`vertexx` ends in ` dust=<k>` when `k > 0` avalanches of the model's
   list have a wire amplitude below `1e-9` of the largest;
@@ -98,15 +98,15 @@ def dustCount (avs : List (Matching.Avalanche Float)) : Nat :=
 
 /-- Stages 2–5 on a given avalanche list, with the digest of the points (and the dust count of
 the list, when not zero) appended to an `ok` answer. -/
-def downstreamAnswer (P : Pipe Float) (avs : List (Matching.Avalanche Float)) : String :=
+def downstreamAnswer (P : Pipe Float) (avs : List (Matching.Avalanche Float)) (ok : String := "ok") : String :=
   let dust := if dustCount avs = 0 then "" else s!" dust={dustCount avs}"
   match stagePoints P avs with
   | .panic site => s!"panic {site}"
   | .err _ => "err -"
   | .ok pts =>
     match vertexFromPoints P pts with
-    | .ok none => s!"ok none {pointsDigest pts}{dust}"
-    | .ok (some p) => s!"ok {showFloat p.1} {showFloat p.2.1} {showFloat p.2.2} {pointsDigest pts}{dust}"
+    | .ok none => s!"{ok} none {pointsDigest pts}{dust}"
+    | .ok (some p) => s!"{ok} {showFloat p.1} {showFloat p.2.1} {showFloat p.2.2} {pointsDigest pts}{dust}"
     | .err _ => "err -"
     | .panic site => s!"panic {site}"
 
@@ -136,7 +136,7 @@ def exactAnswer (args : List String) : String :=
       let avs := Avalanches.avalanchesShared Deconv.floatOps C13.floatGeo C13.floatSorter Q ev
         (Matching.assignments Q ev)
       let T : Avalanches.Tables Float := { wireResp := [], padResp, factors := [], sqrt := Float.sqrt }
-      downstreamAnswer (pipe T) avs
+      downstreamAnswer (pipe T) avs "exact"
     | _, _, _ => "bad-request"
   | _ => "bad-request"
 
